@@ -849,6 +849,8 @@ class Sim(object):
                 if fm2 is None or fname == name or fm2['fuzzy']:
                     continue
                 gotv = (target['ref'], target['title'], target['url']) if target['kind'] == 'dict' else None
+                if self._io and self._io['path'] == fname and (gotv is None or target['kind'] != 'dict'):
+                    continue        # the read of exactly this file failed (injected I/O error): its labels may be absent
                 base = xr_url(self.xr, doc_of_label(lab))
                 cands = [c.get(R, {}).get(lab) for c in fm2['cands']]
                 cands = [(v[0], v[1], (base + v[2]) if (base and v[2] is not None) else v[2]) if v is not None else None for v in cands]
